@@ -4,8 +4,8 @@
     variable all of whose accesses hold one common lock, or come from one goroutine, has no data race;
     (2) the fields of the engine's goroutine-owning struct types, as extracted from the current
     sources on every run, satisfy that discipline.  Not proved: that the extraction sees every access
-    (it is syntactic: struct fields reached through the receiver; captured locals, package
-    variables and other packages are outside it) — for those, and for panics, the check relies on the
+    (it is syntactic: struct fields reached through the receiver, package-level maps, locals captured by
+    function literals; other package variables, aliases and other packages are outside it) — for those, and for panics, the check relies on the
     harness rebuilt with Go's race detector. *)
 From BV Require Import Model.Lockset Proofs.LocksetProofs Gen.Facts.
 Open Scope nat_scope.
@@ -37,6 +37,12 @@ Print Assumptions C17_sources_follow_the_discipline.
 Theorem C17_package_level_maps_locked : global_maps_ok global_map_accesses = true.
 Proof. exact global_maps_hold. Qed.
 Print Assumptions C17_package_level_maps_locked.
+
+(* ... and every local variable shared between a function and its function literals that is modified once
+   such a literal exists is accessed under a lock, atomically, or synchronises itself *)
+Theorem C17_captured_locals_synchronised : captured_ok captured_accesses = true.
+Proof. exact captured_hold. Qed.
+Print Assumptions C17_captured_locals_synchronised.
 
 (* without the discipline a race exists (the notion is not vacuous) *)
 Theorem C17_race_without_discipline : race [Acc 1 7 true; Acc 2 7 false] 7.
